@@ -7,7 +7,8 @@ from __future__ import annotations
 import ast
 
 from ..core import Run, AnalysisError, dotted, norm
-from ..alg import T, num, var, op, fun, app, normalize, same, same_terms, substitute
+from ..alg import T, num, var, op, fun, app, normalize, same, substitute
+from ..alg import same_terms as _same_terms
 from ..pyreader import PyReader, VVal, Sys, Raised, term_has
 from .c12 import H
 from .c11 import SubsReader, _Point, scalars_of, _methods_module, _generic_expr
@@ -32,6 +33,14 @@ TRUSTED = ["vector calculus theorems", "sympy.integrate", "python ast", "sa/pyre
 
 AN = "symplyphysics.core.fields.analysis"
 MODS = ["symplyphysics.core.vectors.arithmetics", "symplyphysics.core.geometry.elements", "symplyphysics.core.geometry.normals", AN]
+
+
+def same_terms(a, b, what: str = "") -> bool:
+    """an integrand that divides by an identically vanishing term (the unit vector of a zero normal) is no value at all"""
+    try:
+        return _same_terms(a, b, what)
+    except ZeroDivisionError:
+        return False
 
 
 class Field:
